@@ -42,7 +42,8 @@ def cosq(deg, shift):
 
 
 def job(spec):
-    types, ident, axis = spec
+    types, ident, axis = spec[:3]
+    lead = len(spec) > 3 and spec[3]      # a leading residue without any base atom (amino acid) in front of the two nucleotides
     sys.path.insert(0, "/verif")
     import z3
     from symx.engine import Engine, SReal
@@ -78,10 +79,16 @@ def job(spec):
         c2 = [o[0] * 1, o[1] * 1, o[2] * 1]
         c2[axis] = c2[axis] + d
         r1, r2 = mk(id1, types[0], c1, n1), mk(id2, types[1], c2, n2)
-        return A.find_stackings(Structure3D([r1, r2]))
+        rs = [r1, r2]
+        if lead:
+            auth = ResidueAuth("0", 1, None, "GLY")
+            gly = Residue3D(None, auth, 1, "X", (Atom(None, None, auth, 1, "CA", c1[0] + 1, c1[1] + 1, c1[2] + 1, 1.0),))
+            gly.__dict__["base_normal_vector"] = None
+            rs = [gly] + rs
+        return A.find_stackings(Structure3D(rs))
     t0 = time.time()
     paths = eng.explore(run)
-    res = {"name": f"{types}:{ident}:ax{axis}", "paths": len(paths), "verdicts": [], "reach_listed": 0}
+    res = {"name": f"{types}:{ident}:ax{axis}:lead{int(bool(lead))}", "paths": len(paths), "verdicts": [], "reach_listed": 0}
     dot = sum((a.e * b.e for a, b in zip(n1, n2)), z3.RealVal(0))
     absdot = z3.If(dot >= 0, dot, -dot)
     # v = c_first - c_second in input order = -d * e_axis ; cos(v, n) = -n[axis]
@@ -93,7 +100,7 @@ def job(spec):
         def val(e):
             r = m.eval(e, model_completion=True)
             return float(r.as_fraction()) if z3.is_rational_value(r) else float(r.approx(15).as_fraction())
-        return {"types": types, "ident": ident, "axis": axis, "d": val(d.e), "n1": [val(c.e) for c in n1], "n2": [val(c.e) for c in n2],
+        return {"types": types, "ident": ident, "axis": axis, "lead": bool(lead), "d": val(d.e), "n1": [val(c.e) for c in n1], "n2": [val(c.e) for c in n2],
                 "u": [val(c.e) for c in u], "o": [val(c.e) for c in o]}
     for path, out in paths:
         if isinstance(out, Exception):
@@ -144,7 +151,12 @@ def mk(idt, name, c, n):
     ats.append(Atom(None, None, auth, 1, "C1'", c[0] + 40, c[1] - 30, c[2] + 20, 1.0))
     r = Residue3D(None, auth, 1, name, tuple(ats)); r.__dict__["base_normal_vector"] = numpy.array(n, dtype=float); return r
 c1 = list(w["o"]); c2 = list(w["o"]); c2[w["axis"]] += w["d"]
-out = find_stackings(Structure3D([mk(id1, w["types"][0], c1, w["n1"]), mk(id2, w["types"][1], c2, w["n2"])]))
+rs = [mk(id1, w["types"][0], c1, w["n1"]), mk(id2, w["types"][1], c2, w["n2"])]
+if w.get("lead"):
+    auth = ResidueAuth("0", 1, None, "GLY")
+    gly = Residue3D(None, auth, 1, "X", (Atom(None, None, auth, 1, "CA", c1[0] + 1, c1[1] + 1, c1[2] + 1, 1.0),)); gly.__dict__["base_normal_vector"] = None
+    rs = [gly] + rs
+out = find_stackings(Structure3D(rs))
 n1, n2 = numpy.array(w["n1"]), numpy.array(w["n2"]); n1 /= numpy.linalg.norm(n1); n2 /= numpy.linalg.norm(n2)
 dot = float(n1 @ n2); cv = max(-n1[w["axis"]], -n2[w["axis"]])
 inside = w["d"] <= 6 and abs(dot) >= math.cos(math.radians(35)) and cv >= math.cos(math.radians(45))
@@ -161,13 +173,17 @@ sys.exit(1 if bad else 0)
 def run(rep, tier):
     from vlib.core import Violation, ncpu
     specs = [(("A", "C"), "same-chain-ascending", 2), (("G", "U"), "same-chain-descending", 0), (("C", "G"), "chain-order", 1),
-             (("U", "A"), "insertion-code", 2)]
+             (("U", "A"), "insertion-code", 2, True)]
     if tier != "quick":
-        specs += [(("T", "G"), "negative-number", 0), (("A", "A"), "same-chain-ascending", 0), (("G", "G"), "same-chain-ascending", 1),
+        specs += [(("T", "G"), "negative-number", 0), (("A", "A"), "same-chain-ascending", 0, True), (("G", "G"), "same-chain-ascending", 1),
                   (("C", "U"), "same-chain-descending", 2), (("U", "T"), "chain-order", 0), (("G", "C"), "insertion-code", 1),
                   (("A", "G"), "negative-number", 2), (("T", "T"), "same-chain-descending", 1)]
-    with multiprocessing.get_context("fork").Pool(min(ncpu(), len(specs))) as pool:
-        results = pool.map(job, specs, chunksize=1)
+    from vlib.par import pmap, Crashed
+    results = pmap(job, specs)
+    for k, r in enumerate(results):
+        if isinstance(r, Crashed):
+            rep.harness_error(f"job {r.item} crashed: {r.why}")
+            results[k] = {"name": str(r.item), "paths": 0, "queries": 0, "solver_s": 0.0, "verdicts": [], "unknown": 0, "wall_s": 0, "reach_listed": 1, "reach": 1, "reached": 1, "missing_classes": []}
     for r in results:
         rep.add(states=r["paths"], transitions=r["queries"], solver_s=r["solver_s"])
         rep.cov.setdefault("groups", []).append({k: r.get(k) for k in ("name", "paths", "queries", "unknown", "wall_s")})
